@@ -41,6 +41,24 @@ type schedSpec struct {
 	L       []int64 `json:"l,omitempty"` // inst: activation instants (ns since base), ascending
 	AddFunc bool    `json:"addfunc,omitempty"`
 	Block   bool    `json:"block,omitempty"` // the job blocks until a "ret" op
+	// Act: what the job does ON ITS OWN CRON at its first invocation (the job callback is a seam:
+	// it runs while the scheduler may still be in the middle of the wake-up that started it)
+	Act *jobAct `json:"act,omitempty"`
+}
+
+type jobAct struct {
+	K  string     `json:"k"`            // removeself | remove | sched | entries
+	ID int64      `json:"id,omitempty"` // remove
+	S  *schedSpec `json:"s,omitempty"`  // sched (no nested action)
+}
+
+// a completed job action
+type actDone struct {
+	k      string
+	id     int64
+	tk     *token
+	snap   []cron.Entry
+	n0, n1 int // log length before / after the call (entries)
 }
 
 type op struct {
@@ -88,8 +106,9 @@ type jobStart struct {
 }
 
 type token struct {
-	spec schedSpec
-	id   int64
+	spec  schedSpec
+	id    int64
+	acted bool
 }
 
 // an item observed while the scheduler was held in the middle of an event: it goes before
@@ -125,6 +144,14 @@ type runner struct {
 	retOut       int // JobRet items emitted
 	stopObs      []bool
 	panics       []string
+	actsStarted  int
+	actsDone     int
+	acts         []actDone
+	settleLen    int
+	batchEvents  int // events in the batch of log records collected last
+	remLogged    map[int64]int
+	remIssued    map[int64]int
+	addLogged    map[int64]bool
 	pending      []pendingItem
 	earlyRets    []string
 	released     int // blocked jobs released by "ret"
@@ -140,7 +167,8 @@ type runner struct {
 }
 
 func newRunner(t0 int64) *runner {
-	r := &runner{byID: map[int64]*token{}}
+	r := &runner{byID: map[int64]*token{}, remLogged: map[int64]int{}, remIssued: map[int64]int{},
+		addLogged: map[int64]bool{}}
 	r.clk = newVclock(t0)
 	r.log = &glog{clk: r.clk}
 	r.clk.log = r.log
@@ -223,13 +251,25 @@ func (r *runner) balanced() bool {
 func (r *runner) job(tok int, block bool) func() {
 	return func() {
 		var ch chan struct{}
+		var act *jobAct
 		r.jmu.Lock()
 		r.jstarts = append(r.jstarts, jobStart{tok, r.clk.Peek()})
+		if tk := r.tokens[tok]; tk.spec.Act != nil && !tk.acted {
+			tk.acted = true
+			act = tk.spec.Act
+			r.actsStarted++
+		}
 		if block {
 			ch = make(chan struct{})
 			r.blocked = append(r.blocked, ch)
 		}
 		r.jmu.Unlock()
+		if act != nil {
+			r.guarded("job:"+act.K, func() { r.doAct(tok, act) })
+			r.jmu.Lock()
+			r.actsDone++
+			r.jmu.Unlock()
+		}
 		if block {
 			<-ch
 		}
@@ -237,6 +277,46 @@ func (r *runner) job(tok int, block bool) func() {
 		r.returned++
 		r.jmu.Unlock()
 	}
+}
+
+// doAct: a call into the Cron from inside one of its own jobs.
+func (r *runner) doAct(tok int, act *jobAct) {
+	d := actDone{k: act.K}
+	switch act.K {
+	case "removeself", "remove":
+		r.jmu.Lock()
+		d.id = act.ID
+		if act.K == "removeself" {
+			d.id = r.tokens[tok].id
+		}
+		var maxID int64
+		for _, tk := range r.tokens {
+			maxID = max(maxID, tk.id)
+		}
+		r.jmu.Unlock()
+		if d.id < 1 || d.id > maxID {
+			return // only ids that Schedule has handed out are removed (see Model.v, RemoveRet)
+		}
+		d.k = "remove"
+		r.c.Remove(cron.EntryID(d.id))
+	case "sched":
+		sp := *act.S
+		sp.Act = nil
+		r.jmu.Lock()
+		tk := &token{spec: sp}
+		r.tokens = append(r.tokens, tk)
+		idx := len(r.tokens) - 1
+		r.jmu.Unlock()
+		r.rawSched(tk, idx)
+		d.tk = tk
+	case "entries":
+		d.n0 = r.log.len()
+		d.snap = r.c.Entries()
+		d.n1 = r.log.len()
+	}
+	r.jmu.Lock()
+	r.acts = append(r.acts, d)
+	r.jmu.Unlock()
 }
 
 // settle waits until the scheduler goroutine is parked; returns the barrier snapshot (running).
@@ -257,6 +337,7 @@ func (r *runner) settle() ([]cron.Entry, bool) {
 			continue
 		}
 		if !r.running {
+			r.settleLen = r.log.len()
 			return nil, true
 		}
 		n0 := r.log.len()
@@ -267,6 +348,7 @@ func (r *runner) settle() ([]cron.Entry, bool) {
 		if r.log.len() != n0 || !r.balanced() {
 			continue
 		}
+		r.settleLen = n0
 		return snap, true
 	}
 	return nil, false
@@ -322,6 +404,13 @@ func snapList(es []cron.Entry) string {
 // the first wake-up of the batch (there is exactly one unless the scheduler misbehaves).
 func (r *runner) collect() {
 	r.waitJobs()
+	r.jmu.Lock()
+	for _, d := range r.acts {
+		if d.tk != nil {
+			r.byID[d.tk.id] = d.tk
+		}
+	}
+	r.jmu.Unlock()
 	base := r.logPos
 	recs := r.log.slice(r.logPos)
 	r.logPos += len(recs)
@@ -339,9 +428,13 @@ func (r *runner) collect() {
 		}
 		r.pending = keep
 	}
+	r.batchEvents = 0
 	for i := 0; i < len(recs); {
 		x := recs[i]
 		j := i + 1
+		if x.kind != "timer" {
+			r.batchEvents++
+		}
 		flush(base+i, false)
 		var group []rec
 		takeGroup := func(kind string) {
@@ -395,11 +488,13 @@ func (r *runner) collect() {
 			} else {
 				r.notes = append(r.notes, fmt.Sprintf("added record for unknown entry %d", x.entry))
 			}
+			r.addLogged[x.entry] = true
 			r.emit("Added", fmt.Sprintf("Added %s %s", hx.CoqZ(t), sp),
 				fmt.Sprintf("OAdded %s %s", hx.CoqZ(x.entry), optZ(x.next)), nil, tm)
 		case "removed":
 			takeTimer()
 			r.lastTm = tm
+			r.remLogged[x.entry]++
 			r.emit("Removed", fmt.Sprintf("Removed %s %s", hx.CoqZ(x.clk), hx.CoqZ(x.entry)), "ONone", nil, tm)
 		case "stop":
 			r.lastTm = nil
@@ -424,12 +519,50 @@ func (r *runner) collect() {
 	}
 	r.pending = nil
 	r.stopObs = nil
+	r.actItems(base + len(recs))
 	if !jobsPlaced {
 		// job starts without a wake-up in this batch: attach them to a context poll so that the
 		// oracle sees them
 		r.emit("CtxPoll", "CtxPoll", "OCtxs "+r.ctxList(), jobs, r.lastTm)
 	}
 	r.emitReturns()
+}
+
+// actItems: what the calls made from inside jobs have shown (they have all returned: waitJobs).
+// Running-state Remove / Schedule calls appear in the log as "removed" / "added" events (already
+// turned into items, in the scheduler's order); here: the returns, and the calls that found the
+// Cron stopped.
+func (r *runner) actItems(logEnd int) {
+	r.jmu.Lock()
+	acts := r.acts
+	r.acts = nil
+	r.jmu.Unlock()
+	for _, d := range acts {
+		switch d.k {
+		case "remove":
+			r.remIssued[d.id]++
+			if r.remIssued[d.id] > r.remLogged[d.id] {
+				r.remLogged[d.id]++
+				r.emit("RemoveIdle", "RemoveIdle "+hx.CoqZ(d.id), "ONone", nil, r.lastTm)
+			}
+			r.emit("RemoveRet", "RemoveRet "+hx.CoqZ(d.id), "ONone", nil, r.lastTm)
+		case "sched":
+			r.byID[d.tk.id] = d.tk
+			if !r.addLogged[d.tk.id] {
+				r.addLogged[d.tk.id] = true
+				r.emit("ScheduleIdle", "ScheduleIdle "+d.tk.spec.coq(), "OId "+hx.CoqZ(d.tk.id), nil, r.lastTm)
+			}
+		case "entries":
+			// exact position known only if the scheduler processed nothing else around the call
+			if d.n0 == d.n1 && d.n1 == logEnd {
+				if r.running {
+					r.snapshotItem(d.snap)
+				} else {
+					r.emit("EntriesIdle", "EntriesIdle", "OSnap "+snapList(d.snap), nil, r.lastTm)
+				}
+			}
+		}
+	}
 }
 
 // waitJobs: the job goroutine of every "run" record has begun, and every job that returns at
@@ -439,7 +572,7 @@ func (r *runner) waitJobs() {
 	waitFor(func() bool {
 		r.jmu.Lock()
 		defer r.jmu.Unlock()
-		if len(r.jstarts) < runs {
+		if len(r.jstarts) < runs || r.actsDone < r.actsStarted {
 			return false
 		}
 		nb := 0
@@ -508,10 +641,30 @@ func (r *runner) snapshotItem(snap []cron.Entry) {
 
 // afterEvent: settle, collect the log, record the barrier snapshot.
 func (r *runner) afterEvent() {
-	snap, ok := r.settle()
+	snap, ok := r.quiesce()
 	r.collect()
 	if ok && r.running {
 		r.snapshotItem(snap)
+	}
+}
+
+// quiesce: settle, and settle again as long as jobs started meanwhile made calls into the Cron.
+func (r *runner) quiesce() ([]cron.Entry, bool) {
+	for i := 0; ; i++ {
+		r.jmu.Lock()
+		a0 := r.actsDone
+		r.jmu.Unlock()
+		snap, ok := r.settle()
+		if !ok {
+			return snap, ok
+		}
+		r.waitJobs()
+		r.jmu.Lock()
+		a1 := r.actsDone
+		r.jmu.Unlock()
+		if (a1 == a0 && r.log.len() == r.settleLen) || i > 50 {
+			return snap, ok
+		}
 	}
 }
 
@@ -519,7 +672,9 @@ func (r *runner) afterEvent() {
 
 func (r *runner) newToken(s schedSpec) *token {
 	tk := &token{spec: s}
+	r.jmu.Lock()
 	r.tokens = append(r.tokens, tk)
+	r.jmu.Unlock()
 	return tk
 }
 
@@ -562,6 +717,9 @@ func (r *runner) doAPI(o op) {
 		if !r.call("Remove", func() { r.c.Remove(cron.EntryID(o.ID)) }) {
 			return
 		}
+		if wasRunning {
+			r.remIssued[o.ID]++
+		}
 		if !wasRunning {
 			r.emit("RemoveIdle", "RemoveIdle "+hx.CoqZ(o.ID), "ONone", nil, nil)
 			r.emit("RemoveRet", "RemoveRet "+hx.CoqZ(o.ID), "ONone", nil, nil)
@@ -587,7 +745,7 @@ func (r *runner) doAPI(o op) {
 		}
 		r.stopObs = append(r.stopObs, d)
 	}
-	snap, ok := r.settle()
+	snap, ok := r.quiesce()
 	r.collect()
 	r.retItem(o, nil)
 	if ok && r.running {
@@ -602,6 +760,13 @@ func (r *runner) retItem(a op, snap []cron.Entry) {
 		r.emit("RemoveRet", "RemoveRet "+hx.CoqZ(a.ID), "ONone", nil, r.lastTm)
 	case "stop":
 		r.emit("StopRet", "StopRet", "ONone", nil, r.lastTm)
+	case "stop2":
+		r.emit("StopRet", "StopRet", "ONone", nil, r.lastTm)
+		r.emit("StopRet", "StopRet", "ONone", nil, r.lastTm)
+	case "start":
+		if r.running {
+			r.emit("StartNoop", "StartNoop", "ONone", nil, r.lastTm)
+		}
 	case "entries":
 		if r.running {
 			r.snapshotItem(snap)
@@ -619,7 +784,7 @@ func (r *runner) earlyReturn(o op, a op, snap []cron.Entry) {
 	switch a.Op {
 	case "remove":
 		kind, ev, out = "RemoveRet", "RemoveRet "+hx.CoqZ(a.ID), "ONone"
-	case "stop":
+	case "stop", "stop2":
 		kind, ev, out = "StopRet", "StopRet", "ONone"
 	case "entries":
 		kind, ev, out = "Snapshot", "Snapshot", "OSnap "+snapList(snap)
@@ -673,6 +838,12 @@ func (r *runner) do(o op) {
 			r.nStopRunning++
 		}
 		r.doAPI(o)
+	case "stop2":
+		r.stop2()
+	case "start2":
+		r.start2()
+	case "startstop":
+		r.startStop(o)
 	case "entries":
 		var snap []cron.Entry
 		if !r.call("Entries", func() { snap = r.c.Entries() }) {
@@ -736,6 +907,146 @@ func (r *runner) do(o op) {
 			}
 		}
 		r.emit("CtxPoll", "CtxPoll", "OCtxs "+r.ctxList(), r.newJobs(), r.lastTm)
+	}
+}
+
+// stop2: two overlapping Stop calls from separate goroutines (runningMu decides which one hands
+// the request to the scheduler; the other finds the Cron stopped).  Each returned context is
+// observed separately.
+func (r *runner) stop2() {
+	wasRunning := r.running
+	if wasRunning {
+		r.nStopRunning++
+	}
+	var c1, c2 context.Context
+	var wg sync.WaitGroup
+	wg.Add(2)
+	go func() { defer wg.Done(); r.guarded("Stop", func() { c1 = r.c.Stop() }) }()
+	go func() { defer wg.Done(); r.guarded("Stop", func() { c2 = r.c.Stop() }) }()
+	if !r.call("Stop x2", wg.Wait) {
+		return
+	}
+	if c1 == nil || c2 == nil {
+		r.hung = "Stop returned no context"
+		return
+	}
+	r.running = false
+	if wasRunning {
+		waitFor(func() bool { return r.stopSeen() }, liveWait)
+	}
+	r.ctxs = append(r.ctxs, c1, c2)
+	d1, d2 := r.observe(c1), r.observe(c2)
+	r.ctxDone = append(r.ctxDone, d1, d2)
+	if wasRunning {
+		r.stopObs = append(r.stopObs, d1)
+		r.quiesce()
+		r.collect()
+	} else {
+		r.emit("StopIdle", "StopIdle", "OCtx "+hx.CoqBool(d1), nil, nil)
+	}
+	r.emit("StopIdle", "StopIdle", "OCtx "+hx.CoqBool(d2), nil, nil)
+	r.emit("StopRet", "StopRet", "ONone", nil, nil)
+	r.emit("StopRet", "StopRet", "ONone", nil, nil)
+}
+
+// start2: two overlapping Start calls: exactly one scheduler goroutine may start.
+func (r *runner) start2() {
+	wasRunning := r.running
+	n := r.log.count("start")
+	var wg sync.WaitGroup
+	wg.Add(2)
+	go func() { defer wg.Done(); r.guarded("Start", func() { r.c.Start() }) }()
+	go func() { defer wg.Done(); r.guarded("Start", func() { r.c.Start() }) }()
+	if !r.call("Start x2", wg.Wait) {
+		return
+	}
+	if wasRunning {
+		r.emit("StartNoop", "StartNoop", "ONone", nil, r.lastTm)
+		r.emit("StartNoop", "StartNoop", "ONone", nil, r.lastTm)
+		return
+	}
+	if !waitFor(func() bool { return r.log.count("start") > n }, liveWait) {
+		r.hung = "Start: scheduler goroutine did not start"
+		return
+	}
+	r.running = true
+	snap, ok := r.quiesce()
+	r.collect()
+	r.emit("StartNoop", "StartNoop", "ONone", nil, r.lastTm)
+	if ok {
+		r.snapshotItem(snap)
+	}
+}
+
+// startStop: Start racing Stop on a running Cron.  runningMu orders them: Start first is a no-op
+// and the Cron ends stopped; Stop first and the Start restarts it.  Which one happened is read
+// off deterministically: after both returned, an Entries() call on a restarted Cron is served by
+// the new scheduler goroutine, i.e. after its "start" record.
+func (r *runner) startStop(o op) {
+	if !r.running {
+		r.do(op{Op: "start"})
+		return
+	}
+	r.nStopRunning++
+	p0 := r.log.len()
+	var cx context.Context
+	var wg sync.WaitGroup
+	wg.Add(2)
+	startIt := func() { defer wg.Done(); r.guarded("Start", func() { r.c.Start() }) }
+	stopIt := func() { defer wg.Done(); r.guarded("Stop", func() { cx = r.c.Stop() }) }
+	if o.N == 1 {
+		// give Stop a head start (only shifts how often each order is seen)
+		go stopIt()
+		runtime.Gosched()
+		go startIt()
+	} else {
+		go startIt()
+		go stopIt()
+	}
+	if !r.call("Start|Stop", wg.Wait) {
+		return
+	}
+	if cx == nil {
+		r.hung = "Stop returned no context"
+		return
+	}
+	waitFor(func() bool { return r.stopSeen() }, liveWait)
+	if !r.call("Entries", func() { r.c.Entries() }) {
+		return
+	}
+	restarted := false
+	for _, x := range r.log.slice(p0) {
+		if x.kind == "start" {
+			restarted = true
+		}
+	}
+	r.log.moveStopFirst(p0)
+	r.running = restarted
+	r.ctxs = append(r.ctxs, cx)
+	r.waitJobs()
+	d := r.observe(cx)
+	r.ctxDone = append(r.ctxDone, d)
+	r.stopObs = append(r.stopObs, d)
+	order := "start-noop-then-stop"
+	if restarted {
+		order = "stop-then-restart"
+		// Stop had returned before the restart began
+		for i, x := range r.log.slice(0) {
+			if i >= p0 && x.kind == "start" {
+				r.pending = append(r.pending, pendingItem{recIdx: i, kind: "StopRet", ev: "StopRet", out: "ONone"})
+				break
+			}
+		}
+	} else {
+		r.emit("StartNoop", "StartNoop", "ONone", nil, r.lastTm)
+	}
+	r.raceObs = append(r.raceObs, "startstop/"+order)
+	snap, ok := r.quiesce()
+	r.collect()
+	if !restarted {
+		r.emit("StopRet", "StopRet", "ONone", nil, nil)
+	} else if ok {
+		r.snapshotItem(snap)
 	}
 }
 
@@ -826,10 +1137,19 @@ func (r *runner) race(o op) {
 		tk = r.newToken(*a.S)
 		idx = len(r.tokens) - 1
 	}
-	var cx context.Context
+	var cx, cx2 context.Context
 	var apiSnap []cron.Entry
 	rawCall := func() {
 		switch a.Op {
+		case "start":
+			r.c.Start() // the Cron is running: returns at once, the scheduler never sees it
+		case "stop2":
+			// two overlapping Stop calls from separate goroutines
+			var wg sync.WaitGroup
+			wg.Add(2)
+			go func() { defer wg.Done(); r.guarded("Stop", func() { cx = r.c.Stop() }) }()
+			go func() { defer wg.Done(); r.guarded("Stop", func() { cx2 = r.c.Stop() }) }()
+			wg.Wait()
 		case "sched":
 			r.rawSched(tk, idx)
 		case "remove":
@@ -840,7 +1160,7 @@ func (r *runner) race(o op) {
 			apiSnap = r.c.Entries()
 		}
 	}
-	if a.Op == "stop" {
+	if a.Op == "stop" || a.Op == "stop2" {
 		r.nStopRunning++
 	}
 	early := false
@@ -852,11 +1172,13 @@ func (r *runner) race(o op) {
 		// also lets the call reach its channel send, so that both select cases are ready.
 		select {
 		case <-done:
-			early = true
-			if tk != nil {
-				r.byID[tk.id] = tk
+			if a.Op != "start" {
+				early = true
+				if tk != nil {
+					r.byID[tk.id] = tk
+				}
+				r.earlyReturn(o, a, apiSnap)
 			}
-			r.earlyReturn(o, a, apiSnap)
 		case <-time.After(earlyWait):
 		}
 		if o.Mode == "gated" {
@@ -893,19 +1215,26 @@ func (r *runner) race(o op) {
 	if tk != nil {
 		r.byID[tk.id] = tk
 	}
-	if a.Op == "stop" {
+	if a.Op == "remove" {
+		r.remIssued[a.ID]++
+	}
+	if (a.Op == "stop" || a.Op == "stop2") && cx == nil {
+		r.hung = "Stop returned no context"
+		return
+	}
+	if a.Op == "stop" || a.Op == "stop2" {
 		r.running = false
 		r.ctxs = append(r.ctxs, cx)
 		r.ctxDone = append(r.ctxDone, false)
 		waitFor(func() bool { return r.stopSeen() }, liveWait)
 	}
-	snap, ok := r.settle()
+	snap, ok := r.quiesce()
 	r.clk.DeliverHeld() // apifirst: the old timer has been stopped by now; nothing is delivered
 	if ok && r.running {
 		// the delivery above can only matter if the call did not stop the timer (it always does)
-		snap, ok = r.settle()
+		snap, ok = r.quiesce()
 	}
-	if a.Op == "stop" {
+	if a.Op == "stop" || a.Op == "stop2" {
 		// jobs started by a wake-up that won the race must be counted (and the ones that return
 		// at once must have returned: their returns are linearised before the Stop) before
 		// judging the context
@@ -936,7 +1265,16 @@ func (r *runner) race(o op) {
 	}
 	r.raceObs = append(r.raceObs, fmt.Sprintf("%s/%s/due=%d/%s", o.Mode, a.Op, min(due, 1), order))
 	r.collect()
-	if !early {
+	if a.Op == "stop2" && cx2 != nil {
+		// the second of the overlapping Stop calls found the Cron stopped
+		r.ctxs = append(r.ctxs, cx2)
+		d2 := r.observe(cx2)
+		r.ctxDone = append(r.ctxDone, d2)
+		r.emit("StopIdle", "StopIdle", "OCtx "+hx.CoqBool(d2), nil, nil)
+	}
+	if !early && !(a.Op == "entries" && r.batchEvents > 1) {
+		// (an Entries result is placed only when its position is certain: the scheduler processed
+		// nothing but the event in progress - e.g. no call from inside a job - around it)
 		r.retItem(a, apiSnap)
 	}
 	if ok && r.running {
